@@ -78,7 +78,7 @@ func (c *Ctx) Paths(rule string, fn *ssa.Function) []*pathx.Path {
 		return ps
 	}
 	var ps []*pathx.Path
-	st, err := pathx.Enumerate(fn, pathx.Config{Loads: true, InlineLoops: true, Inline: func(_, callee *ssa.Function) bool { return c.isNewHelper(callee) }}, func(p *pathx.Path) { ps = append(ps, p) })
+	st, err := pathx.Enumerate(fn, pathx.Config{Loads: true, InlineLoops: true, Inline: c.expandInPlace}, func(p *pathx.Path) { ps = append(ps, p) })
 	if err != nil {
 		c.S.Unknown(rule, rule+"|paths|"+load.FuncName(fn), c.P.Pos(fn.Pos()), load.FuncName(fn), "path enumeration failed: "+err.Error())
 	}
@@ -407,4 +407,15 @@ func (c *Ctx) analysed() []*ssa.Function {
 		}
 	}
 	return out
+}
+
+// expandInPlace: callees the path engine walks through instead of treating the
+// call as opaque: helpers introduced after the rules were written, and
+// function literals of the caller that are called directly (an immediately
+// invoked literal is a block with its own scope).
+func (c *Ctx) expandInPlace(caller, callee *ssa.Function) bool {
+	if c.isNewHelper(callee) {
+		return true
+	}
+	return callee.Parent() != nil && load.TopLevel(callee) == load.TopLevel(caller)
 }
